@@ -87,7 +87,11 @@ func Supported(cert *x509.Certificate) bool {
 
 func checkStatusFromServer(ctx context.Context, cert, issuer *x509.Certificate, server string, opts CertCheckStatusOptions) *result.ServerResult {
 	// Check valid server
-	if serverURL, err := url.Parse(server); err != nil || !strings.EqualFold(serverURL.Scheme, "http") {
+	serverURL, err := url.Parse(server)
+	if err != nil {
+		return toServerResult(server, GenericError{Err: fmt.Errorf("OCSPServer URL is invalid: %w", err)})
+	}
+	if !strings.EqualFold(serverURL.Scheme, "http") {
 		// This function is only able to check servers that are accessible via HTTP
 		return toServerResult(server, GenericError{Err: fmt.Errorf("OCSPServer protocol %s is not supported", serverURL.Scheme)})
 	}
